@@ -216,13 +216,17 @@ Definition num_mutations_vs_ref (alphabet : Z) (ref s : list byte) : option nat 
 (* ListMutationsComparedToReferenceSequence (nucleotide-wise): substitutions and insertions relative to
    the reference, positions counted on the ungapped reference; (Ref, Pos, Alt) *)
 Definition mutation := (byte * Z * list byte)%type.
+(* the pending insertion, if any, is emitted at the current reference coordinate *)
+Definition flush (cur : list byte) (refi : Z) : list mutation :=
+  match cur with [] => [] | _ => [(GAP, refi, cur)] end.
+
 Fixpoint list_mut_loop (all : byte) (cols : list (byte * byte * bool)) (cur : list byte) (refi : Z) : list mutation :=
   match cols with
-  | [] => match cur with [] => [] | _ => [(GAP, refi, cur)] end
+  | [] => flush cur refi
   | (b, rb, eq) :: t =>
       if beqb rb GAP then list_mut_loop all t (if beqb b GAP then cur else cur ++ [b]) refi
       else
-        (match cur with [] => [] | _ => [(GAP, refi, cur)] end) ++
+        flush cur refi ++
         (if negb (beqb b all) && negb eq then [(rb, refi, [b])] else []) ++
         list_mut_loop all t [] (refi + 1)
   end.
